@@ -22,7 +22,7 @@ ASSUMPTIONS = [
 ]
 
 ALL = list(dimrun.ROOTS)
-RULES = ["DIM.D1", "DIM.D2", "DIM.D3", "DIM.LOG", "DIM.SHAPE"]
+RULES = ["DIM.D1", "DIM.D2", "DIM.D3", "DIM.LOG", "DIM.SHAPE", "DIM.ABS"]
 
 
 def run(P, R, tier):
